@@ -421,9 +421,15 @@ func finalOpStreams() []Stream {
 			{"rep1", []ref.Op{m(4, 9), m(3, 17), {Kind: ref.OpRep1, Len: 2}}},
 			{"rep2", []ref.Op{m(4, 9), m(3, 17), m(5, 33), {Kind: ref.OpRep2, Len: 4}}},
 			{"rep3", []ref.Op{m(4, 9), m(3, 17), m(5, 33), m(2, 65), {Kind: ref.OpRep3, Len: 2}}},
+			// long lengths (the high length tree, 18..273) in the last operation
+			{"rep0-long", []ref.Op{m(4, 9), lit('x'), {Kind: ref.OpRep0, Len: 25}}},
+			{"rep1-long", []ref.Op{m(4, 9), m(3, 17), {Kind: ref.OpRep1, Len: 40}}},
+			{"rep2-273", []ref.Op{m(4, 9), m(3, 17), m(5, 33), {Kind: ref.OpRep2, Len: 273}}},
+			{"match-high", []ref.Op{m(100, 40)}},
+			{"match-dist1-fresh", []ref.Op{m(4, 9), m(3, 17), m(5, 33), m(2, 65), lit('z'), m(7, 1)}},
 		}
 		pr := ref.Props{LC: 3, LP: 0, PB: 2}
-		for v := 0; v < 6; v++ {
+		for v := 0; v < 10; v++ {
 			text := textBytes(200+v, 330+v)
 			base := ref.GreedyOps(0, text, 4096)
 			for _, sf := range sufs {
